@@ -13,7 +13,11 @@
       result (compared with the equivalent text schema), inapplicable uses (member not found, wrong
       parameter count, non-numeric index or size, missing sizer, wrong node kind, ...) make prophyc
       fail, rules naming an absent node are ignored (outputs identical to a run without them); the same
-      inapplicable / absent rules are also injected at random places into the patch files of (1).
+      inapplicable / absent rules are also injected at random places into the patch files of (1);
+  (5) every isar <dimension> form (fixed, 2-d, variable with default / named / typed counter, variable with a size, '@counter',
+      THIS_IS_VARIABLE_SIZE_ARRAY) with and without optional="true" (implicit u32 has_<name> flag), in a <struct> and in a
+      <message> (which drops the size of ALL its variable arrays), as last and as inner member, against the text schema that
+      spells the counters / flags out; values with element counts at, under and over the (dropped) size.
 """
 import json
 import os
@@ -250,8 +254,247 @@ def run_absent(case, root):
     return []
 
 
-RUNNERS = {"equiv": run_equiv, "negenum": run_equiv, "rich": run_equiv, "patch-applicable": run_equiv, "patch-inapplicable": run_must_fail,
-           "patch-absent": run_absent}
+RUNNERS = {"equiv": run_equiv, "negenum": run_equiv, "rich": run_equiv, "dims": run_equiv, "patch-applicable": run_equiv,
+           "patch-inapplicable": run_must_fail, "patch-absent": run_absent}
+
+
+# ------------------------------------------------------------------------------------------
+# (5) every isar <dimension> form x optional attribute x <struct>/<message> x member position
+# ------------------------------------------------------------------------------------------
+# What an isar member means, member by member (prophyc/parsers/isar.py make_struct_members, its tests, and the
+# text syntax of docs/schema.rst); `x` is the member name, T its type:
+#   no <dimension>                                        T x;        optional="true": T* x;
+#   <dimension size="N"/>                                 T x[N];
+#   <dimension size="N" size2="M"/>                       T x[N*M];
+#   <dimension isVariableSize="true"/>                    u32 x_len; T x<@x_len>;
+#        + variableSizeFieldName="c" variableSizeFieldType="C"     C c; T x<@c>;
+#   <dimension isVariableSize="true" size="N"/>           in a <struct>: counter + array limited to N  (text: T x<N>, whose
+#                                                         counter is u32 num_of_x, so the xml names it that way);
+#                                                         in a <message>: the size is dropped for EVERY member: plain dynamic
+#   <dimension ... variableSizeFieldName="@c"/>           T x<@c>;    (c is a member of its own, defined before)
+#   <dimension size="THIS_IS_VARIABLE_SIZE_ARRAY"/>       T x<@numOfX>;   (numOfX is a member of its own)
+#   optional="true" together with ANY <dimension>         u32 has_x; in front of what the dimension form gives
+#   optional="false"                                      as without the attribute
+# The generator below writes the xml itself (frontends.to_isar never combines optional with a dimension and restores limits
+# inside messages through patch rules) together with the schema tuple of the meaning above; the text route is
+# schema.to_prophy of that tuple.
+
+DIM_FORMS = ("plain", "fixed", "fixed2", "var", "var_named", "varsize", "ext", "native")
+
+
+def _dim_pool():
+    """element types: alignments 1, 2, 4, 8, enum, fixed structs, union, bytes, a dynamic struct"""
+    en = S.mk_enum("DEn", [("DEn_A", 1), ("DEn_B", 0x80000000)])
+    f4 = S.mk_struct("DF", [("a", "plain", S.scalar("u32")), ("b", "plain", S.scalar("u8"))])
+    g2 = S.mk_struct("DG", [("a", "plain", S.scalar("u8")), ("b", "plain", S.scalar("u16")), ("c", "plain", S.scalar("u8"))])
+    un = S.mk_union("DU", [(0, "a", S.scalar("u8")), (1, "b", S.scalar("u64"))])
+    dy = S.mk_struct("DD", [("k", "plain", S.scalar("u8")), ("x", "dyn", S.scalar("u16"))])
+    fixed = [S.scalar(n) for n in ("u8", "u16", "u32", "u64", "i8", "i16", "r32", "r64")] + [en, f4, g2, un]
+    return {"fixed": fixed, "bytes": S.BYTE, "dynamic": dy}
+
+
+def _dim_struct(name, tag, members):
+    """members: dicts {name, type, form, optional: None|'true'|'false', size, size2, sizer_name, sizer_type, size_text}
+    -> (xml element text, schema struct tuple, {array member index: size attribute dropped by <message>})"""
+    fields, index, hints, body = [], {}, {}, ""
+
+    def add(n, k, t):
+        index[n] = len(fields)
+        fields.append((n, k, t))
+
+    for m in members:
+        fn, ft, form, opt = m["name"], m["type"], m["form"], m.get("optional")
+        flag = opt == "true"
+        extra = [("optional", opt)] if opt is not None else []
+        tn = "byte" if ft[0] == "byte" else ft[1]
+        size = m.get("size_text") or m.get("size")
+
+        def member(dim):
+            a = F._attrs([("name", fn), ("type", tn)] + extra)
+            if dim is None:
+                return "        <member%s/>\n" % a
+            return "        <member%s>\n            <dimension%s/>\n        </member>\n" % (a, F._attrs(dim))
+        if form == "plain":
+            add(fn, S.OPT if flag else S.PLAIN, ft)
+            body += member(None)
+            continue
+        if flag:
+            add("has_" + fn, S.PLAIN, S.scalar("u32"))
+        if form == "fixed":
+            add(fn, ("fixed", m["size"]), ft)
+            body += member([("size", size)])
+        elif form == "fixed2":
+            add(fn, ("fixed", m["size"] * m["size2"]), ft)
+            body += member([("size", size), ("size2", m["size2"])])
+        elif form in ("var", "var_named", "varsize"):
+            dim = [("isVariableSize", "true")]
+            if form == "varsize":
+                dim.append(("size", size))
+            cname, ctype = m.get("sizer_name"), m.get("sizer_type")
+            if cname:
+                dim.append(("variableSizeFieldName", cname))
+            if ctype:
+                dim.append(("variableSizeFieldType", ctype))
+            add(cname or fn + "_len", S.PLAIN, S.scalar(ctype or "u32"))
+            s = len(fields) - 1
+            if form == "varsize" and tag == "struct":
+                add(fn, ("limited", m["size"], s), ft)
+            else:
+                add(fn, ("bound", s), ft)
+                if form == "varsize":
+                    hints[len(fields) - 1] = m["size"]
+            body += member(dim)
+        elif form == "ext":
+            add(fn, ("bound", index[m["sizer_name"]]), ft)
+            body += member([("isVariableSize", "true"), ("variableSizeFieldName", "@" + m["sizer_name"])])
+        elif form == "native":
+            add(fn, ("bound", index["numOf" + fn[0].upper() + fn[1:]]), ft)
+            body += member([("size", "THIS_IS_VARIABLE_SIZE_ARRAY")])
+        else:
+            raise ValueError(form)
+    return ("    <%s%s>\n%s    </%s>\n" % (tag, F._attrs([("name", name)]), body, tag), ("struct", name, tuple(fields)), hints)
+
+
+def _dim_value(rng, t, hints, policy):
+    """a value of struct t whose element counts are chosen relative to the limit (or to the size attribute a <message>
+    drops): 'at' it, one 'under', 'over' it (where no limit holds), or 'mixed'"""
+    fields = t[2]
+    counts = {}
+    for i, (fname, k, ft) in enumerate(fields):
+        if k[0] in ("bound", "limited"):
+            lim = k[1] if k[0] == "limited" else None
+            ref = lim if lim is not None else hints.get(i, 3)
+            c = {"at": ref, "under": max(0, ref - 1), "over": ref + rng.choice([1, 2, 5]),
+                 "mixed": rng.choice([0, 1, 2, ref, ref + 1, 7])}[policy]
+            if lim is not None:
+                c = min(c, lim)
+            c = min(c, S.srange(fields[k[-1]][2][1])[1])
+            counts[k[-1]] = min(counts.get(k[-1], c), c)
+    vals = []
+    for i, (fname, k, ft) in enumerate(fields):
+        if i in counts:
+            vals.append(counts[i])
+        elif k[0] == "plain":
+            vals.append(rng.choice([0, 1]) if fname.startswith("has_") else S.gen_value(rng, ft, 1, "mixed"))
+        elif k[0] == "opt":
+            vals.append(None if rng.random() < 0.4 else ("some", S.gen_value(rng, ft, 1, "mixed")))
+        else:
+            n = k[1] if k[0] == "fixed" else counts[k[-1]]
+            vals.append(("list", [S.gen_value(rng, ft, 1, "mixed") for _ in range(n)]))
+    return ("struct", vals)
+
+
+def _dim_case(rng, name, tag, members, label, cls, wrap=False, consts=()):
+    chunk, t, hints = _dim_struct(name, tag, members)
+    inner = t
+    if wrap:
+        t = S.mk_struct(name + "W", [("p", "plain", S.scalar("u8")), ("n", "plain", inner), ("q", "plain", S.scalar("u16"))])
+    chunks = []
+    for d in S.decls(t):
+        if d[1] == name:
+            chunks.append(chunk)
+        elif d[0] == "enum":
+            chunks.append(F._enum_isar(d, "direct")[0])
+        elif d[0] == "union":
+            chunks.append(F._union_isar(d, "direct", False, None)[0])
+        else:
+            chunks.append(F._struct_isar(d, "direct", "direct", False, False, None)[0])
+    rng.shuffle(chunks)
+    cx = "".join("    <constant%s/>\n" % F._attrs([("name", n), ("value", v)]) for n, v in consts)
+    ct = "".join("const %s = %d;\n" % (n, v) for n, v in consts)
+    values = [S.gen_value(rng, t, 0, "min")]
+    for policy in ("at", "under", "over", "mixed"):
+        v = _dim_value(rng, inner, hints, policy)
+        values.append(("struct", [rng.randint(0, 255), v, rng.randint(0, 65535)]) if wrap else v)
+    return {"mode": "dims", "style": "isar dimension forms", "schema": t, "values": values, "schema_text": ct + S.to_prophy(t),
+            "xml": '<?xml version="1.0" encoding="utf-8"?>\n<x>\n%s%s</x>\n' % (cx, "".join(chunks)), "patch": None,
+            "label": label, "cls": cls}
+
+
+def _dim_member(rng, pool, name, form, optional, tag, sizers):
+    """one member of the given form with a suitable element type; appends the counter members it needs to `pre`"""
+    pre = []
+    m = {"name": name, "form": form, "optional": optional}
+    if form == "plain":
+        m["type"] = rng.choice(pool["fixed"])
+    elif form in ("fixed", "fixed2") or (form == "varsize" and tag == "struct"):
+        m["type"] = rng.choice(pool["fixed"] + [pool["bytes"]])      # elements of fixed / limited arrays are of fixed size
+    else:
+        m["type"] = rng.choice(pool["fixed"] + [pool["bytes"], pool["dynamic"], S.scalar("u8"), S.scalar("u16")])
+    if form in ("fixed", "fixed2", "varsize"):
+        m["size"] = rng.choice([1, 2, 3, 4, 5])
+    if form == "fixed2":
+        m["size2"] = rng.choice([1, 2, 3])
+    if form == "var_named":
+        m["sizer_name"] = rng.choice(["cnt_" + name, name + "Count", "num_of_" + name])
+        m["sizer_type"] = rng.choice(S.INTS)
+    elif form == "varsize":
+        if tag == "struct":
+            m["sizer_name"] = "num_of_" + name                      # the only counter the text form x<N> can have
+        elif rng.random() < 0.5:
+            m["sizer_name"] = rng.choice(["cnt_" + name, "num_of_" + name])
+            m["sizer_type"] = rng.choice([None, "u8", "u16", "u32"])
+    elif form == "ext":
+        if sizers and rng.random() < 0.4:
+            m["sizer_name"] = rng.choice(sizers)
+        else:
+            m["sizer_name"] = "n_" + name
+            pre.append({"name": m["sizer_name"], "form": "plain", "type": S.scalar(rng.choice(S.INTS))})
+            sizers.append(m["sizer_name"])
+    elif form == "native":
+        pre.append({"name": "numOf" + name[0].upper() + name[1:], "form": "plain", "type": S.scalar(rng.choice(S.INTS))})
+    return pre, m
+
+
+def dims_cases(seed, n_random):
+    rng = random.Random(seed)
+    pool = _dim_pool()
+    out = []
+    # the matrix: every form x optional x struct/message x (last member / followed by another member)
+    for form in DIM_FORMS:
+        for optional in (None, "true"):
+            for tag in ("struct", "message"):
+                for pos in ("last", "middle"):
+                    pre, m = _dim_member(rng, pool, "x", form, optional, tag, [])
+                    members = [{"name": "h", "form": "plain", "type": S.scalar("u8")}] + pre + [m]
+                    if pos == "middle":
+                        members.append({"name": "t", "form": "plain", "type": S.scalar(rng.choice(["u16", "u32", "u64"]))})
+                    out.append(_dim_case(rng, "M%d" % len(out), tag, members,
+                                         "dims:%s:%s:optional=%s:%s" % (tag, form, optional, pos), ("dims", tag, form, optional, pos)))
+    # several sized variable arrays in one element: first, middle and last member
+    for tag in ("struct", "message"):
+        for optional in (None, "true"):
+            members = []
+            for fn, et in (("a", "u16"), ("b", "u8"), ("c", "u32")):
+                members.append({"name": fn, "form": "varsize", "type": S.scalar(et), "size": rng.choice([2, 3, 4]), "optional": optional,
+                                "sizer_name": "num_of_" + fn if tag == "struct" else None})
+                if fn == "a":
+                    members.append({"name": "k", "form": "plain", "type": S.scalar("u16")})
+            out.append(_dim_case(rng, "M%d" % len(out), tag, members, "dims:%s:three sized variable arrays:optional=%s" % (tag, optional),
+                                 ("dims", tag, "varsize x3", optional, "all")))
+    # random combinations
+    for i in range(n_random):
+        tag = rng.choice(["struct", "message"])
+        members, sizers, consts = [], [], {}
+        forms = []
+        for j in range(rng.randint(2, 5)):
+            form = rng.choice(DIM_FORMS)
+            optional = rng.choice([None, None, None, "true", "true", "true", "false"])
+            pre, m = _dim_member(rng, pool, "f%d" % j, form, optional, tag, sizers)
+            if "size" in m and rng.random() < 0.3:
+                m["size_text"] = "DK%d" % m["size"]                  # the size spelled by a constant
+                consts[m["size_text"]] = m["size"]
+            if rng.random() < 0.3:
+                members.append({"name": "s%d" % j, "form": "plain", "type": S.scalar(rng.choice(S.INTS))})
+                if rng.random() < 0.5:
+                    sizers.append("s%d" % j)
+            members += pre + [m]
+            forms.append(form + ("?" if optional == "true" else ""))
+        if rng.random() < 0.4:
+            members.append({"name": "z", "form": "plain", "type": S.scalar(rng.choice(["u8", "u16", "u64"]))})
+        out.append(_dim_case(rng, "R%d" % i, tag, members, "dims:rnd%d:%s:%s" % (i, tag, "+".join(forms)),
+                             ("dims-rnd", tag, tuple(sorted(set(forms)))), wrap=rng.random() < 0.25, consts=sorted(consts.items())))
+    return out
 
 
 # ------------------------------------------------------------------------------------------
@@ -590,10 +833,11 @@ def main():
     n_equiv = len(cases)
     neg = negenum_cases(random.Random(chk.seed + 2), 20 if quick else 200)
     rich = rich_cases(chk.seed + 4, 100 if quick else 1000)
+    dims = dims_cases(chk.seed + 5, 60 if quick else 600)
     matrix = patch_matrix()
     injected = inject_cases(cases, random.Random(chk.seed + 3), 40 if quick else 400)
     corpus = load_corpus()
-    allc = cases + neg + rich + matrix + injected + corpus
+    allc = cases + neg + rich + dims + matrix + injected + corpus
     root = common.scratch("c17")
 
     def job(a):
@@ -656,9 +900,14 @@ def main():
         "optional / array / union arm) against the text schema with v mod 2^32. Patch matrix over a fixed 6-node xml: %d applicable "
         "uses with the documented result as text, %d inapplicable uses (must exit non-zero), %d rules naming an absent node (all "
         "three generators' outputs byte-identical to a run without them); %d rules of both sorts injected at random positions "
-        "into generated patch files." % (n_equiv, "2 of 5 (rotating)" if quick else "all 5", len(rich), len(neg),
+        "into generated patch files. %d hand-written isar elements for the <dimension> forms (%s) x optional attribute (absent / "
+        "true; false in the random ones) x <struct> / <message> x array as last / inner member, three sized variable arrays in "
+        "one element, and random combinations of 2-5 such members (sizes by number or constant, shared '@' counters, element types "
+        "of every alignment, bytes, composites, a dynamic struct; a quarter nested in an outer struct), against the text of the "
+        "stated meaning; 5 values each with element counts at / one under / over the limit (or the size a <message> drops)."
+        % (n_equiv, "2 of 5 (rotating)" if quick else "all 5", len(rich), len(neg),
                                          chk.coverage["patch_matrix"]["patch-applicable"], chk.coverage["patch_matrix"]["patch-inapplicable"],
-                                         chk.coverage["patch_matrix"]["patch-absent"], len(injected)))
+                                         chk.coverage["patch_matrix"]["patch-absent"], len(injected), len(dims), ", ".join(DIM_FORMS)))
     for c in cases:
         if c["style"] == "noisy" and c["patch"] and len(c["xml"]) < 2500:
             chk.sample({"style": c["style"], "schema_text": c["schema_text"], "xml": c["xml"], "patch": c["patch"]})
